@@ -5,7 +5,9 @@ C09 model: connection secrets.
  * APIConnectionPropagator.PropagateConnection (claim/connection.go) — Apply with the
    updating applicator (Get; Create | options; Update),
  * ExtractConnectionDetails (composite/connection.go).
-A secret slot is `none` (absent) or a secret with its type, controller and data.
+A secret slot is `none` (absent) or a secret with its type, controller and data, as seen by one
+caller. Model/C09World.lean lifts this to a store of secrets with absolute identities, per-call
+fault plans and sequences of operations; the functions here are its fault-free special cases.
 -/
 namespace Xp.C09
 
